@@ -120,3 +120,26 @@ MUTANTS["C11"] = {
     "unsqueeze_backward_accumulates_into_view": [(F, "            a_grad = cpu_ops.reshape_backward(grad_output.data, x.shape)\n        else:\n            raise RuntimeError(f\"{grad_output.device} not supported\")\n        \n        if x.requires_grad: x._grad += a_grad \n", "            a_grad = cpu_ops.reshape_backward(grad_output.data, x.shape)\n        else:\n            raise RuntimeError(f\"{grad_output.device} not supported\")\n        \n        if x.requires_grad: x._grad += a_grad; x.data.reshape(-1)[:1] *= 1.0000001 \n")],
     "linear_forward_transposes_weight_inplace": [(NF, "        if bias:\n            out_data = cpu_ops.addmm_forward(bias.data, x.data, weight.data.T)", "        if bias:\n            bias.data += 0.0; bias.data[...] = bias.data + 1e-9\n            out_data = cpu_ops.addmm_forward(bias.data, x.data, weight.data.T)")],
 }
+
+MUTANTS["C12"] = {
+    "orig_shared_param_listed_per_path": [(M, "        unique = []\n        for p in params:\n            if not any(p is q for q in unique):\n                unique.append(p)\n        return unique", "        return params")],
+    "orig_stale_registration_on_plain_reassign": [(M, "            for registry in ('_submodules', '_parameters'):\n                if __name in self.__dict__.get(registry, ()):\n                    del self.__dict__[registry][__name]\n", "")],
+    "orig_stale_param_when_module_assigned": [(M, "        self._parameters.pop(name, None) # a name holds one registration at a time\n", "")],
+    "parameters_recursion_depth_1": [(M, "        for m in self.submodules():\n            params += m.parameters()", "        for m in self.submodules():\n            params += list(m._parameters.values())")],
+    "eval_does_not_recurse": [(M, "        self.training = False\n        for m in self.submodules():\n            m.eval()", "        self.training = False\n        for m in self.submodules():\n            m.training = False")],
+    "train_skips_last_child": [(M, "        self.training = True\n        for m in self.submodules():\n            m.train()", "        self.training = True\n        for m in self.submodules()[:max(1, len(self.submodules()) - 1)] if len(self.submodules()) > 2 else self.submodules():\n            m.train()")],
+    "freeze_own_params_only": [(M, "    def freeze(self):\n        for p in self.parameters():", "    def freeze(self):\n        for p in self._parameters.values():")],
+    "unfreeze_stops_at_first_frozen_child": [(M, "    def unfreeze(self):\n        for p in self.parameters():\n            p.requires_grad = True", "    def unfreeze(self):\n        for p in self.parameters()[:3]:\n            p.requires_grad = True")],
+    "registry_dedup_by_equal_shape": [(M, "            if not any(p is q for q in unique):", "            if not any(p is q or (p.shape == q.shape and p.shape == (2, 2)) for q in unique):")],
+    "sequential_forward_reversed": [(M, "        for module in self.submodules():\n            out = module(inp)", "        for module in reversed(self.submodules()):\n            out = module(inp)")],
+    "sequential_sorted_by_name": [(M, "        for module in self.submodules():\n            out = module(inp)", "        for module in [self._submodules[k] for k in sorted(self._submodules)]:\n            out = module(inp)")],
+    "num_params_counts_tensors": [(M, "            num_params += p.size\n            if p.requires_grad: num_trainable += p.size", "            num_params += 1\n            if p.requires_grad: num_trainable += p.size")],
+    "num_params_nontrainable_is_total_minus_own": [(M, "            else: num_non_trainable += p.size", "            else: num_non_trainable += p.size if p.ndim > 1 else 0")],
+    "zero_grad_own_params_only": [(M, "    def zero_grad(self):\n        for p in self.parameters():", "    def zero_grad(self):\n        for p in self._parameters.values():")],
+    "register_module_accepts_anything": [(M, "        if not isinstance(module, Module):\n            raise TypeError(\"All submodules must be of type Module\")", "        if False:\n            raise TypeError(\"All submodules must be of type Module\")")],
+    "children_before_own_for_first_child_only": [(M, "        params = list(self._parameters.values())\n        for m in self.submodules():\n            params += m.parameters()", "        params = list(self._parameters.values())\n        for m in reversed(self.submodules()):\n            params += m.parameters()")],
+    "setattr_registers_under_wrong_registry_order": [(M, "        self._parameters[name] = parameter\n        object.__setattr__(self, name, parameter)", "        self._parameters[name] = parameter\n        self._parameters.move_to_end(name, last=False)\n        object.__setattr__(self, name, parameter)")],
+}
+NEUTRAL["registries_dedupe_with_id_set"] = [(M, "        unique = []\n        for p in params:\n            if not any(p is q for q in unique):\n                unique.append(p)\n        return unique", "        unique = []; seen_ = set()\n        for p in params:\n            if id(p) not in seen_:\n                seen_.add(id(p)); unique.append(p)\n        return unique")]
+NEUTRAL["children_params_before_own"] = [(M, "        params = list(self._parameters.values())\n        for m in self.submodules():\n            params += m.parameters()", "        params = []\n        for m in self.submodules():\n            params += m.parameters()\n        params += list(self._parameters.values())")]
+NEUTRAL["train_eval_via_apply"] = [(M, "        self.training = False\n        for m in self.submodules():\n            m.eval()", "        def off_(m_): m_.training = False\n        self.apply(off_)")]
